@@ -116,7 +116,9 @@ def head_guard(s, ip, cn):
     first_call = min([ev.seq for ev in s.events if ev.kind == "call"
                       and ev.data["fname"].startswith(GEN_MOD)] or [10 ** 9])
     gs = [g for g in extract_guards(ip, cn, s.events)
-          if g.ev.depth == 0 and g.ev.seq < first_call and not g.loops and not g.residual]
+          # (at any depth: a validation helper that is called unconditionally at the head and whose
+          # asserts are unconditional in it is part of the head)
+          if g.ev.seq < first_call and not g.loops and not g.residual]
     return f_and([g.F for g in gs])
 
 
@@ -1068,9 +1070,32 @@ def _drop_atoms(F, keep):
 def check_sensitive(ctx, chk):
     fi, ip, s, cn = method_run(ctx, "_generate_sensitive_hosts")
     rs, ru, rg = fi.rparams[1], fi.rparams[2], fi.rparams[3]
+    # the entries of the dict that ends up in self.sensitive_hosts, however they are written:
+    # literal items, item stores, a key chosen by a conditional (one entry per alternative)
+    from sa.canon import f_not as _n
+    attr_st = [ev for ev in s.events if ev.kind == "store" and ev.data["target"] == "attr"
+               and ev.data.get("name") == "sensitive_hosts"]
+    entries = []          # (key text, value text, condition formula)
+    dv = attr_st[-1].data["value"] if attr_st else None
+    if dv is not None and dv[0] == "dictobj":
+        h = ip.heap[dv[1]]
+        pc0 = tuple(h.get("pc0", ()))
+
+        def split(key, val, F):
+            if key[0] == "phi":
+                c_ = cn.formula(key[1])
+                split(key[2], val, f_and([F, c_]))
+                split(key[3], val, f_and([F, _n(c_)]))
+            else:
+                entries.append((cn.show(key), cn.show(val), F))
+        for k_, v_ in h["items"].items():
+            entries.append((cn.show(C(k_)), cn.show(v_), ("true",)))
+        for k_, v_, pc_ in h["dyn"]:
+            rel = tuple(c for c in (pc_[len(pc0):] if tuple(pc_[:len(pc0)]) == pc0 else pc_)
+                        if c[0] != "fact")
+            split(k_, v_, cn.conj(rel))
     stores = [ev for ev in s.events if ev.kind == "store" and ev.data["target"] == "sub"]
-    got = [(cn.show(ev.data["idx"]), cn.show(ev.data["value"]),
-            f_show(cn.conj(tuple(c for c in ev.pc if c[0] != "fact")))) for ev in stores]
+    got = [(k_, v_, f_show(F_)) for k_, v_, F_ in entries]
     want1 = ("(2, 0)", rs, "TRUE")
     ok1 = want1 in got
     chk.ob("C15.sensitive", "sensitive host (SENSITIVE subnet, 0) with value r_sensitive, always",
@@ -1081,10 +1106,8 @@ def check_sensitive(ctx, chk):
                                                "np.random.randint(0, G.subnets[")]
     conds_ok = False
     if len(fixed) == 1 and len(rnd) == 1:
-        from sa.canon import f_not as _n
-        # the two user-goal stores are under complementary conditions
-        c1 = [cn.conj(tuple(c for c in ev.pc if c[0] != "fact")) for ev in stores
-              if cn.show(ev.data["value"]) == ru]
+        # the two user-goal entries are under complementary conditions
+        c1 = [F_ for k_, v_, F_ in entries if v_ == ru]
         conds_ok = len(c1) == 2 and f_equiv(c1[0], _n(c1[1]))
     chk.ob("C15.sensitive", "exactly one user-zone sensitive host with value r_user (last host of "
            "the last subnet, or a random user-subnet host when random_goal)",
